@@ -26,8 +26,8 @@ class C02(Property):
         "ties in time accept any least-advanced component as root",
         "per-adapter shifts come from the adapters' own public with_delay (C13 checks those); the composition rule is the model's",
     )
-    cases = {"quick": 1500, "thorough": 40000}
-    min_nontrivial = {"quick": 400, "thorough": 5000}
+    cases = {"quick": 1500, "thorough": 120000}
+    min_nontrivial = {"quick": 400, "thorough": 20000}
 
     def gen(self, rnd, i, tier):
         cyc = "sufficient" if rnd.random() < 0.3 else None
